@@ -80,6 +80,61 @@ pub struct Feed {
     /// standard input is this REGULAR FILE, already read up to the given offset by "an earlier
     /// reader" (`{ read header; tool; } < file` in a shell): the tool's input starts at the offset
     pub stdin_file: Option<(std::path::PathBuf, u64)>,
+    /// standard output is a TERMINAL (a pseudo-terminal in raw mode, so that the bytes arrive as
+    /// written) instead of a pipe: what a tool prints must not depend on who reads it
+    pub stdout_tty: bool,
+    /// the `gnuplot` stub is on the PATH for this run whatever the arguments hash to
+    pub gnuplot_stub: bool,
+    /// standard input is a TERMINAL on which the input is "typed" (line mode, no echo, no signal or
+    /// editing characters), ended by the end-of-file key. Only for inputs without the byte 0x04 whose
+    /// lines are shorter than the terminal's line buffer (see `typeable`).
+    pub stdin_tty: bool,
+}
+
+/// Can these bytes be typed on a terminal in line mode without loss? (no end-of-file byte, lines < 1000 bytes)
+pub fn typeable(data: &[u8]) -> bool {
+    !data.contains(&4) && data.split(|b| *b == b'\n').all(|l| l.len() < 1000)
+}
+
+/// A pseudo-terminal pair for INPUT: canonical mode (so that the end-of-file key works), no echo,
+/// no signals, no input translation, every special character except end-of-file disabled.
+fn open_input_pty() -> Option<(std::fs::File, std::fs::File)> {
+    use std::os::unix::io::FromRawFd;
+    let (mut m, mut s): (libc::c_int, libc::c_int) = (-1, -1);
+    unsafe {
+        if libc::openpty(&mut m, &mut s, std::ptr::null_mut(), std::ptr::null_mut(), std::ptr::null_mut()) != 0 {
+            return None;
+        }
+        let mut t: libc::termios = std::mem::zeroed();
+        if libc::tcgetattr(s, &mut t) == 0 {
+            t.c_iflag = 0;
+            t.c_oflag = 0;
+            t.c_lflag = libc::ICANON;
+            for c in t.c_cc.iter_mut() {
+                *c = 0; // _POSIX_VDISABLE
+            }
+            t.c_cc[libc::VEOF] = 4;
+            libc::tcsetattr(s, libc::TCSANOW, &t);
+        }
+        Some((std::fs::File::from_raw_fd(m), std::fs::File::from_raw_fd(s)))
+    }
+}
+
+/// Open a pseudo-terminal pair in raw mode. (master, slave)
+fn open_raw_pty() -> Option<(std::fs::File, std::fs::File)> {
+    use std::os::unix::io::FromRawFd;
+    let (mut m, mut s): (libc::c_int, libc::c_int) = (-1, -1);
+    unsafe {
+        if libc::openpty(&mut m, &mut s, std::ptr::null_mut(), std::ptr::null_mut(), std::ptr::null_mut()) != 0 {
+            return None;
+        }
+        let mut t: libc::termios = std::mem::zeroed();
+        if libc::tcgetattr(s, &mut t) == 0 {
+            libc::cfmakeraw(&mut t);
+            libc::tcsetattr(s, libc::TCSANOW, &t);
+        }
+        Some((std::fs::File::from_raw_fd(m), std::fs::File::from_raw_fd(s)))
+    }
 }
 
 fn write_chunked(w: &mut dyn Write, data: &[u8], chunk: usize) {
@@ -133,12 +188,29 @@ pub fn run<A: AsRef<std::ffi::OsStr>>(bin: &Path, args: &[A], stdin: Option<&[u8
 }
 
 /// Run a binary with a budget (RSBDD_VERIF_BUDGET) and a generous watchdog.
+/// A directory holding an executable `gnuplot` stub (created on first use, under the build directory).
+pub fn stub_dir() -> Option<std::path::PathBuf> {
+    use std::os::unix::fs::PermissionsExt;
+    static DIR: std::sync::OnceLock<Option<std::path::PathBuf>> = std::sync::OnceLock::new();
+    DIR.get_or_init(|| {
+        let base = std::env::var("VERIF_STUB_DIR").map(std::path::PathBuf::from).unwrap_or_else(|_| std::env::temp_dir().join(format!("vh-stubs-{}", std::process::id())));
+        std::fs::create_dir_all(&base).ok()?;
+        let g = base.join("gnuplot");
+        std::fs::write(&g, "#!/bin/sh\ncat >/dev/null\nexit 0\n").ok()?;
+        std::fs::set_permissions(&g, std::fs::Permissions::from_mode(0o755)).ok()?;
+        Some(base)
+    })
+    .clone()
+}
+
 /// Variables named like the options of the five tools, with values the options would accept.
-pub const HOSTILE_ENV: [(&str, &str); 30] = [
+pub const HOSTILE_ENV: [(&str, &str); 40] = [
     ("FILTER", "false"), ("RETAIN_CHOICES", "true"), ("BENCHMARK", "0"), ("ORDERING", "/nonexistent/ordering.txt"), ("MODEL", "true"), ("TRUTHTABLE", "true"), ("VARS", "true"),
     ("EVALUATE", "zz_from_the_environment"), ("INPUT", "/nonexistent/input.txt"), ("OUTPUT", "/dev/null"), ("DOT", "/dev/null"), ("PARSETREE", "/dev/null"), ("PLOT", "false"), ("EXPORT_ORDERING", "true"),
     ("QUEENS", "3"), ("N", "3"), ("ROOT", "1"), ("R", "1"), ("UNDIRECTED", "true"), ("ALL", "true"), ("COLORS", "2"), ("CONVERT", "/nonexistent/graph.csv"), ("COMPLETE", "true"), ("VERTICES", "2"), ("EDGES", "1"),
     ("CLAP_ENV", "1"), ("ARGS", "-t"), ("RSBDD_ARGS", "-t -m"), ("RUST_LOG", "trace"), ("NO_COLOR", "1"),
+    // settings of the terminal / locale / user that have no bearing on what the tools compute
+    ("COLUMNS", "10"), ("LINES", "3"), ("TERM", "dumb"), ("LANG", "tr_TR.UTF-8"), ("LC_ALL", "C"), ("HOME", "/nonexistent"), ("TMPDIR", "/nonexistent/tmp"), ("USER", "nobody"), ("CLICOLOR_FORCE", "1"), ("SEED", "7"),
 ];
 
 pub fn run_fed<A: AsRef<std::ffi::OsStr>>(bin: &Path, args: &[A], stdin: Option<&[u8]>, feed: &Feed, cwd: Option<&Path>, budget: Option<(u64, u64)>, watchdog: Duration) -> RunOut {
@@ -155,12 +227,26 @@ pub fn run_fed<A: AsRef<std::ffi::OsStr>>(bin: &Path, args: &[A], stdin: Option<
         f.seek(std::io::SeekFrom::Start(*off)).ok()?;
         Some(f)
     });
-    let stdin_piped = stdin.is_some() && positioned.is_none();
-    cmd.args(args).stdin(match positioned {
-        Some(f) => Stdio::from(f),
-        None if stdin.is_some() => Stdio::piped(),
-        None => Stdio::null(),
-    }).stdout(Stdio::piped()).stderr(Stdio::piped());
+    let in_pty = if feed.stdin_tty && stdin.map_or(false, typeable) && positioned.is_none() { open_input_pty() } else { None };
+    let (in_master, in_slave) = match in_pty {
+        Some((m, s)) => (Some(m), Some(s)),
+        None => (None, None),
+    };
+    let stdin_piped = stdin.is_some() && positioned.is_none() && in_master.is_none();
+    let pty = if feed.stdout_tty { open_raw_pty() } else { None };
+    let (mut pty_master, pty_slave) = match pty {
+        Some((m, s)) => (Some(m), Some(s)),
+        None => (None, None),
+    };
+    cmd.args(args).stdin(match (positioned, in_slave) {
+        (Some(f), _) => Stdio::from(f),
+        (None, Some(s)) => Stdio::from(s),
+        (None, None) if stdin.is_some() => Stdio::piped(),
+        _ => Stdio::null(),
+    }).stdout(match pty_slave {
+        Some(s) => Stdio::from(s),
+        None => Stdio::piped(),
+    }).stderr(Stdio::piped());
     cmd.env("RUST_BACKTRACE", "0");
     cmd.env_remove("RSBDD_VERIF_BUDGET");
     // Every second run (chosen by the arguments, so a replay does the same) starts in an
@@ -181,6 +267,14 @@ pub fn run_fed<A: AsRef<std::ffi::OsStr>>(bin: &Path, args: &[A], stdin: Option<
                 cmd.env(format!("RSBDD_{}", k), v);
             }
         }
+        // ... and every third run finds the external program the tools may call (`gnuplot`, for
+        // rsbdd -g) on the PATH: a stub that reads its script and exits 0. Without it -g can only fail.
+        if h % 3 == 0 || feed.gnuplot_stub {
+            if let Some(dir) = stub_dir() {
+                let path = std::env::var("PATH").unwrap_or_default();
+                cmd.env("PATH", format!("{}:{}", dir.display(), path));
+            }
+        }
     }
     if let Some((s, f)) = budget {
         cmd.env("RSBDD_VERIF_BUDGET", format!("{},{}", s, f));
@@ -194,11 +288,25 @@ pub fn run_fed<A: AsRef<std::ffi::OsStr>>(bin: &Path, args: &[A], stdin: Option<
             return RunOut { code: None, signal: None, stdout: vec![], stderr: format!("HARNESS: cannot spawn {}: {}", bin.display(), e).into_bytes(), timed_out: true };
         }
     };
-    let mut so = child.stdout.take().unwrap();
+    // (the Command still holds the slave end of the pseudo-terminal: drop it so that the master sees the end)
+    drop(cmd);
+    let so = child.stdout.take();
     let mut se = child.stderr.take().unwrap();
+    let master = pty_master.take();
     let h_out = std::thread::spawn(move || {
         let mut b = Vec::new();
-        let _ = so.read_to_end(&mut b);
+        if let Some(mut m) = master {
+            // a read on the master fails with EIO once the last writer has gone
+            let mut buf = [0u8; 65536];
+            loop {
+                match m.read(&mut buf) {
+                    Ok(0) | Err(_) => break,
+                    Ok(n) => b.extend_from_slice(&buf[..n]),
+                }
+            }
+        } else if let Some(mut so) = so {
+            let _ = so.read_to_end(&mut b);
+        }
         b
     });
     let h_err = std::thread::spawn(move || {
@@ -206,6 +314,36 @@ pub fn run_fed<A: AsRef<std::ffi::OsStr>>(bin: &Path, args: &[A], stdin: Option<
         let _ = se.read_to_end(&mut b);
         b
     });
+    // typing on the terminal: the lines, then the end-of-file key (twice after an unfinished line);
+    // the master end stays open until the tool has exited
+    let mut keep_master = None;
+    if let (Some(input), Some(mut m)) = (stdin, in_master) {
+        let mut data = input.to_vec();
+        if !data.is_empty() && !data.ends_with(b"\n") {
+            data.push(4);
+        }
+        data.push(4);
+        let mut writer = m.try_clone().ok();
+        keep_master = Some(m);
+        let stop2 = std::sync::Arc::clone(&stop);
+        std::thread::spawn(move || {
+            if let Some(w) = writer.as_mut() {
+                for line in data.split_inclusive(|b| *b == b'\n') {
+                    if w.write_all(line).is_err() {
+                        return;
+                    }
+                }
+                // end-of-file is not sticky on a terminal: a reader that asks again after the end
+                // waits for the user, who presses the key again — so do we, until the tool is done
+                for _ in 0..2000 {
+                    std::thread::sleep(Duration::from_millis(15));
+                    if stop2.load(std::sync::atomic::Ordering::SeqCst) || w.write_all(&[4]).is_err() {
+                        return;
+                    }
+                }
+            }
+        });
+    }
     if let (Some(input), true) = (stdin, stdin_piped) {
         if let Some(mut si) = child.stdin.take() {
             let data = input.to_vec();
@@ -241,6 +379,7 @@ pub fn run_fed<A: AsRef<std::ffi::OsStr>>(bin: &Path, args: &[A], stdin: Option<
         }
     };
     stop.store(true, std::sync::atomic::Ordering::SeqCst);
+    drop(keep_master);
     let stdout = h_out.join().unwrap_or_default();
     let stderr = h_err.join().unwrap_or_default();
     let (code, signal) = match status {
